@@ -27,11 +27,12 @@ FAMILIES = [
 
 
 def generate(rng, tier, shard, nshards):
+    event = gops.variant_event(rng)
     # (C) the exhaustive family enumerated by TLC (every grammar with <= 2 rules over {S,A}/{a}), all strings
     for G in fam.tlc_family(shard, nshards):
         for s in fam.strings(G["V"], 3):
             for p in ("direct", "earley", "cky"):
-                yield gops.event("parse", {"sr": "Sat3", "G": G, "s": list(s), "parser": p, "names": "str"},
+                yield event("parse", {"sr": "Sat3", "G": G, "s": list(s), "parser": p, "names": "str"},
                                  site=f"parse/{p}", feat="tlc-family")
     n_grammars = 14 if tier == "quick" else 120
     L = 3 if tier == "quick" else 4
@@ -61,9 +62,9 @@ def generate(rng, tier, shard, nshards):
                         else:                                       # history on the grammar object
                             args["pre"] = [rng.choice(gops.safe_pre(srn, shape)) for _ in range(rng.randint(1, 2))]
                         f2 = feat + "+history"
-                    yield gops.event("parse", args, site=f"parse/{p}", feat=f2)
+                    yield event("parse", args, site=f"parse/{p}", feat=f2)
             if gi % 2 == 0:
-                yield gops.event("lang", {"sr": srn, "G": G, "L": rng.choice([1, 2, 2, 3]), "names": names},
+                yield event("lang", {"sr": srn, "G": G, "L": rng.choice([1, 2, 2, 3]), "names": names},
                                  site="materialize", feat=feat)
 
 
